@@ -174,6 +174,9 @@ type RunOpts struct {
 	CrashIsViolation bool
 	WorkerTimeout time.Duration
 	ExtraEvidence map[string]any
+	// RaceLog, when set, is the GORACE log_path prefix given to workers; report blocks found
+	// there are turned into C17.data-race violations.
+	RaceLog string
 }
 
 type crash struct {
@@ -224,6 +227,9 @@ func RunParent(reg Registry, o RunOpts) int {
 				cmd.Stdout = lf
 				cmd.Stderr = lf
 				cmd.Env = append(os.Environ(), "GOTRACEBACK=all")
+				if o.RaceLog != "" {
+					cmd.Env = append(cmd.Env, "GORACE=halt_on_error=0 exitcode=0 log_path="+o.RaceLog)
+				}
 				done := make(chan error, 1)
 				if err := cmd.Start(); err != nil {
 					mu.Lock()
@@ -303,6 +309,23 @@ func RunParent(reg Registry, o RunOpts) int {
 			total.NViol[o.Property+"/"+v.Rule]++
 		} else {
 			inconclusive = append(inconclusive, fmt.Sprintf("worker crashed in engine %s case %d: %s", c.Engine, c.Idx, crashWhere(c.Tail)))
+		}
+	}
+
+	raceStats := map[string]int{}
+	if o.RaceLog != "" {
+		reports, harnessOnly := ParseRaceLogs(o.RaceLog)
+		raceStats["race_report_blocks"] = 0
+		for sig, n := range reports {
+			raceStats["race_report_blocks"] += n
+			v := &Violation{Property: o.Property, Rule: o.Property + ".data-race", Engine: "race-detector", Seed: o.Seed, Tier: o.Tier,
+				Attrs: map[string]string{"pair": sig}, Detail: map[string]any{"occurrences": n}}
+			total.Violations = append(total.Violations, v)
+			total.NViol[o.Property+"/"+v.Rule] += n
+		}
+		raceStats["distinct_race_pairs"] = len(reports)
+		if harnessOnly > 0 {
+			inconclusive = append(inconclusive, fmt.Sprintf("%d race report(s) entirely inside harness code", harnessOnly))
 		}
 	}
 
@@ -409,6 +432,9 @@ func RunParent(reg Registry, o RunOpts) int {
 	}
 	if n, ok := total.Counters["evaluations"]; ok && n > 0 {
 		cov["evaluations"] = n
+	}
+	if o.RaceLog != "" {
+		cov["race_detector"] = raceStats
 	}
 	for k, v := range o.ExtraEvidence {
 		cov[k] = v
@@ -527,4 +553,57 @@ func crashWhere(tail string) string {
 		}
 	}
 	return reason
+}
+
+// ParseRaceLogs reads the race detector's log files (prefix.*) and returns the de-duplicated
+// reports that involve repository code, keyed by the sorted pair of innermost repository
+// functions of the two accesses (line numbers stripped), and the number of reports that
+// involve harness code only.
+func ParseRaceLogs(prefix string) (map[string]int, int) {
+	out := map[string]int{}
+	harnessOnly := 0
+	files, _ := filepath.Glob(prefix + ".*")
+	for _, f := range files {
+		b, err := os.ReadFile(f)
+		if err != nil {
+			continue
+		}
+		for _, block := range strings.Split(string(b), "==================") {
+			if !strings.Contains(block, "WARNING: DATA RACE") {
+				continue
+			}
+			// the two access stacks come first; goroutine creation stacks follow
+			parts := strings.Split(block, "\n\n")
+			var tops []string
+			for _, p := range parts {
+				if len(tops) == 2 {
+					break
+				}
+				if !(strings.Contains(p, " by goroutine ") || strings.Contains(p, " by main goroutine")) {
+					continue
+				}
+				top := ""
+				for _, l := range strings.Split(p, "\n") {
+					l = strings.TrimSpace(l)
+					if strings.HasPrefix(l, "github.com/DataDog/extendeddaemonset/") && !strings.Contains(l, "verifclock") {
+						fn := l
+						if i := strings.LastIndex(fn, "("); i > 0 {
+							fn = fn[:i]
+						}
+						top = fn[strings.LastIndex(fn, "/")+1:]
+						break
+					}
+				}
+				tops = append(tops, top)
+			}
+			sort.Strings(tops)
+			sig := strings.Join(tops, " <-> ")
+			if strings.Trim(sig, " <->") == "" {
+				harnessOnly++
+				continue
+			}
+			out[sig]++
+		}
+	}
+	return out, harnessOnly
 }
